@@ -67,11 +67,21 @@ def glue(s: Subject) -> str:
     all_tbl = ", ".join(f"({lit(d, r)}, {E}::{ident})" for d, ident, _ in sd)
     decl = "\n    ".join(s.rust_decl().split("\n"))
     arms_s = "\n                ".join(arms)
+    hostile = getattr(s, "hostile", "")
+    if hostile:
+        import probes
+        inner = "\n        ".join(s.rust_decl().split("\n"))
+        if hostile == "shadow":
+            pre = "\n        ".join(probes.HOSTILE_PRELUDE.split("\n"))
+            head = f"pub mod hostile {{\n        {pre}\n        {inner}\n    }}\n    use self::hostile::{E};"
+        else:
+            head = f"#[no_implicit_prelude]\n    pub mod hostile {{\n        use ::enum_tools::EnumTools;\n        {inner}\n    }}\n    use self::hostile::{E};"
+    else:
+        head = f"use enum_tools::EnumTools;\n    {decl}"
     return f"""
-#[allow(dead_code, unused_imports, unused_variables, non_camel_case_types, non_snake_case, non_upper_case_globals, unreachable_patterns, clippy::all)]
+#[allow(dead_code, unused_imports, unused_variables, non_camel_case_types, non_snake_case, non_upper_case_globals, unreachable_patterns, unused_macros, clippy::all)]
 pub mod m_{s.sid} {{
-    use enum_tools::EnumTools;
-    {decl}
+    {head}
     const ALL: &[({r}, {E})] = &[{all_tbl}];
     fn ev(s: &str) -> {E} {{
         let d: {r} = s.parse().unwrap();
